@@ -388,6 +388,99 @@ fn run_stress(t: &mut Tape, cx: &mut Cx) -> Result<(), String> {
     Ok(())
 }
 
+/// Update-lock histories: a few steps on the update path (a complete update, a lock that is given
+/// up without replacing, an updater that dies while it holds the lock, a cloned handle), then one
+/// updater holds the lock while a second one, on another thread and another handle, asks for it.
+/// The second one must not get it before the first has published and released, and afterwards
+/// both replacements must be in the published map. (A second updater seen inside the lock is a
+/// violation whenever it is seen; the short wait only gives a wrong implementation the chance to
+/// show it. An updater that never gets the lock hangs the case, which the driver attributes.)
+fn run_lock_hist(t: &mut Tape, cx: &mut Cx) -> Result<(), String> {
+    use vm_memory::atomic::GuestMemoryExclusiveGuard;
+    let n = t.below(4) as usize;
+    let steps: Vec<u64> = (0..n).map(|_| t.below(4)).collect();
+    let a = GuestMemoryAtomic::new(Map::from_arc_regions(vec![mk_region(0x1000, 1)?]).map_err(|e| format!("{:?}", e))?);
+    let mut handles = vec![a.clone()];
+    let mut expected: Vec<u64> = vec![0x1000];
+    let mut next = 0x10_0000u64;
+    fn take(h: &GuestMemoryAtomic<Map>) -> GuestMemoryExclusiveGuard<'_, Map> {
+        match h.lock() {
+            Ok(g) => g,
+            // a poisoned lock still hands out the guard
+            Err(p) => p.into_inner(),
+        }
+    }
+    let starts = |h: &GuestMemoryAtomic<Map>| -> Vec<u64> { h.memory().iter().map(|r| r.start_addr().0).collect() };
+    let names = ["update", "lock and give up", "updater dies holding the lock", "clone handle"];
+    note!(cx, "steps {:?}", steps.iter().map(|s| names[*s as usize]).collect::<Vec<_>>());
+    for (i, s) in steps.iter().enumerate() {
+        let h = handles[(i + *s as usize) % handles.len()].clone();
+        match s {
+            0 => {
+                let g = take(&h);
+                let nm = h.memory().insert_region(mk_region(next, 2 + i as u8)?).map_err(|e| format!("{:?}", e))?;
+                g.replace(nm);
+                expected.push(next);
+                next += 0x10_0000;
+            }
+            1 => {
+                let g = take(&h);
+                drop(g);
+                cx.nt("lock_given_up");
+            }
+            2 => {
+                let h2 = h.clone();
+                let r = std::thread::spawn(move || {
+                    let _g = take(&h2);
+                    panic!("updater dies while holding the update lock");
+                })
+                .join();
+                ensure!(r.is_err(), "HARNESS-PANIC: the dying updater did not die");
+                cx.nt("updater_died_holding_the_lock");
+            }
+            _ => handles.push(h.clone()),
+        }
+        ensure!(starts(&h) == expected, "after step {} ({}) the published map lists {:x?}, expected {:x?}", i, names[*s as usize], starts(&h), expected);
+    }
+    // exclusion
+    let ha = handles[0].clone();
+    let hb = handles[handles.len() - 1].clone();
+    let (ra, rb) = (mk_region(next, 0x71)?, mk_region(next + 0x10_0000, 0x72)?);
+    let g = take(&ha);
+    let (tx, rx) = std::sync::mpsc::channel::<()>();
+    let b = std::thread::spawn(move || -> Result<(), String> {
+        let g2 = take(&hb);
+        let _ = tx.send(());
+        let nm = hb.memory().insert_region(rb).map_err(|e| format!("second updater: {:?}", e))?;
+        g2.replace(nm);
+        Ok(())
+    });
+    let inside = rx.recv_timeout(std::time::Duration::from_millis(20)).is_ok();
+    ensure!(!inside, "a second updater obtained the update lock while the first one still holds it (after steps {:?})", steps.iter().map(|s| names[*s as usize]).collect::<Vec<_>>());
+    let nm = ha.memory().insert_region(ra).map_err(|e| format!("first updater: {:?}", e))?;
+    g.replace(nm);
+    b.join().map_err(|_| "the second updater panicked".to_string())??;
+    expected.push(next);
+    expected.push(next + 0x10_0000);
+    ensure!(starts(&ha) == expected, "after both updaters the published map lists {:x?}, expected {:x?}: a replacement was lost", starts(&ha), expected);
+    cx.nt("two_updaters");
+    Ok(())
+}
+
+fn gen_lock_hist(_t: Tier) -> Box<dyn Iterator<Item = Vec<u64>>> {
+    let mut v: Vec<Vec<u64>> = vec![vec![0]];
+    for a in 0..4u64 {
+        v.push(vec![1, a]);
+        for b in 0..4u64 {
+            v.push(vec![2, a, b]);
+            for c in 0..4u64 {
+                v.push(vec![3, a, b, c]);
+            }
+        }
+    }
+    Box::new(v.into_iter())
+}
+
 pub fn property() -> Property {
     Property {
         id: "C11",
@@ -396,6 +489,7 @@ pub fn property() -> Property {
         subchecks: vec![
             SubCheck { name: "sequential", builds: &[Build::Std], kind: Kind::Random { quick: 12_000, thorough: 400_000, max_words: 100 }, run: run_seq },
             SubCheck { name: "stress", builds: &[Build::Plain], kind: Kind::Random { quick: 200, thorough: 6_000, max_words: 12 }, run: run_stress },
+            SubCheck { name: "lock_histories", builds: &[Build::Std, Build::Plain], kind: Kind::Exhaustive { gen: gen_lock_hist }, run: run_lock_hist },
         ],
     }
 }
